@@ -73,6 +73,10 @@ type Pool struct {
 	n    int
 	excl sync.RWMutex
 
+	// MaxCalls > 0: a worker is replaced by a fresh process after it served that many calls.
+	MaxCalls int
+	Recycled int64
+
 	Restarts int64
 	Calls    int64
 	closed   int32
@@ -187,6 +191,13 @@ func (p *Pool) call(req []byte, watchdog time.Duration) ([]byte, error) {
 		}
 		p.idle <- nw
 		return nil, ferr
+	}
+	if p.MaxCalls > 0 && w.calls >= p.MaxCalls {
+		if nw, err := p.spawn(); err == nil {
+			w.kill()
+			atomic.AddInt64(&p.Recycled, 1)
+			w = nw
+		}
 	}
 	p.idle <- w
 	return resp, nil
